@@ -6,6 +6,8 @@ SPEC = {
     "theorems": {"Properties.C18": [
         "C18_must_expand_total", "C18_use_sites_total", "C18_unvalidated_pattern_crashes",
         "C18_constant_templates_total_prefix", "C18_prefix_protocol_refuted",
+        "C18_annotation_label_blocks_total", "C18_unvalidated_block_key_crashes", "C18_reject_blocks_total",
+        "C18_name_link_aggregate_blocks_total", "C18_block_model_matches_source",
         "C18_every_dropped_error_is_validated", "C18_every_dropped_error_is_reviewed",
         "C18_guard_check_rejects_unguarded_use", "C18_validation_reaches_every_block", "C18_nonvacuous"]},
     "harness_args": lambda tier: ["C18", "--n", 60 if tier == "quick" else 4000],
@@ -14,16 +16,24 @@ SPEC = {
     "level": "proof",
     "trusted_base": [
         "Coq 8.16.1 kernel + VM; no axioms",
-        "translator: core table dropped_error_sites (internal/config, internal/checks) + ext_C18 (every call inside validate()/Validate()/Load with "
-        "argument and `!= \"\"` guard; dropped-error and Must* sites of cmd/pint; callers of matchRegex/strictRegex) -> Gen/Tables.v, Gen/C18.v, every run",
-        "reviewed table coq/Model/TemplatedRegexpSites.v: the class of each site (validated-same-function rows are CHECKED against the generated validators; "
-        "zero-value / rule-data / harmless / constant classes are review judgements, exercised by the binary-level runs, not proved)",
-        "correspondence: real New(Raw)TemplatedRegexp / Expand / MustExpand vs Model/TemplatedRegexp.v; text/template and regexp tabulated by the harness through the Go libraries",
-        "binary oracle: `pint config` verdict vs panic / fatal error / timeout of `pint lint` (offline and online against an in-process fake Prometheus, ephemeral port) under ulimit -v 8 GiB",
+        "translator: core table dropped_error_sites (internal/config, internal/checks) + ext_C18 -> Gen/Tables.v, Gen/C18.v, every run: every call inside "
+        "validate()/Validate()/validate* helpers/Load with argument (loop variables resolved) and nearest `X != \"\"` guard; dropped-error and Must* sites of cmd/pint; "
+        "callers of matchRegex/strictRegex; the `X != \"\"` guard around EVERY dropped-error / Must* / regexp-helper call (site_guards); the block schema of the "
+        "configuration (every hcl block field of internal/config), every nested `<owner>.<Field>.validate()` call with whether its error is returned, and the "
+        "struct types that have a validate method",
+        "reviewed table coq/Model/TemplatedRegexpSites.v: the class of each site. Validated rows (same function / Must wrapper / helper pair, same field) are CHECKED "
+        "against the generated validators and guards, including that a validator under `F != \"\"` only covers uses that are all under `F != \"\"`; "
+        "zero-value / defaulted / rule-data / harmless / constant / helper-body / CLI classes are review judgements, exercised by the binary-level runs, not proved",
+        "correspondence: real New(Raw)TemplatedRegexp / Expand / MustExpand vs Model/TemplatedRegexp.v, and real Rule.validate / parseRule / String() / Check() of "
+        "annotation, label, reject, name and aggregate blocks vs Model/TemplatedRegexpBlocks.v (valid and invalid patterns); text/template and regexp tabulated by "
+        "the harness through the Go libraries",
+        "binary oracle: `pint config` verdict vs panic / fatal error / timeout of `pint lint` (offline and online against an in-process fake Prometheus, ephemeral port) under ulimit -v 8 GiB; "
+        "systematic strata: every match/ignore condition x valid/invalid/borderline values x a rule file in which each condition is reached; documented --enabled/--disabled value forms",
     ],
     "assumptions": [
-        "the constant pattern [^\\s\\S] compiles (premise of C18_must_expand_total; checked on every correspondence case)",
+        "the constant pattern [^\\s\\S] compiles (premise of the totality theorems; checked on every correspondence case)",
         "crash freedom outside the listed dropped-error sites (plain nil dereferences, index errors, non-termination) has no theorem: runtime remainder covered by execution only",
+        "which pointers a check dereferences without a nil test (String(), MustExpand call sites) is hand-modelled in TemplatedRegexpBlocks.v and validated by the block correspondence",
     ],
 }
 
@@ -31,18 +41,23 @@ SPEC = {
 def run(ctx):
     return pv.standard(ctx, SPEC)
 
-
 MANIFEST = {
-    "text": "PARTIAL (runtime remainder by execution). Theorems (Coq, no axioms): for every behaviour of text/template and regexp, a templated pattern "
-            "accepted by load-time validation is built by the same function and expanded by a total MustExpand on every rule (the pre-fix protocol is "
-            "refuted with a witness); finite theorem over tables regenerated from the Go AST: every site of internal/config, internal/checks and cmd/pint "
-            "where an error is dropped or a Must* helper gets a non-constant argument is accounted for — validated at load by a call to the same function on "
-            "the same field (checked against the generated validator table), or a reviewed harmless class, or belongs to an OPEN known finding (the crash rows are proved to be exactly the open findings; with none open the full statement follows). "
-            "Tied by the translator, by differential execution of NewTemplatedRegexp/Expand/MustExpand on patterns x rules with regexp/template "
-            "metacharacters, and by running the real binary on generated configurations over every documented block/option (valid, invalid, templated "
-            "values): `pint config` verdict vs panic/hang/OOM of lint runs (offline and against a fake Prometheus).",
-    "note": "Coq 8.16.1 kernel+VM, no axioms; the harmless classes of the site table are review judgements; four open known findings (three crashes of "
-            "accepted configurations, one crash on a rule expression) with class predicates on input + crash site; crash freedom in general is not provable "
-            "from an executable model and stays testing.",
-    "technique": "Coq protocol theorem with library oracles + AST-generated site/validator tables with a reviewed disposition table + differential correspondence + load-vs-lint runs of the binary",
+    "text": "PARTIAL (runtime remainder by execution). Theorems (Coq, no axioms): (1) for every behaviour of text/template and regexp, a templated pattern accepted by "
+            "load-time validation is built by the same function and expanded by a total MustExpand on every rule (the pre-fix protocol is refuted with a witness); "
+            "lifted to whole rule sub-blocks: an annotation / label / reject / name / link / aggregate block accepted by its validate() is turned by parseRule into checks "
+            "whose String() and every regexp use inside Check are total on every rule, with no configured option silently dropped, while an unvalidated key crashes at "
+            "the first String() call. (2) FULL statement over tables regenerated from the Go AST: every site of internal/config, internal/checks and cmd/pint where an "
+            "error is dropped or a Must* helper gets a non-constant argument is validated at load by a call to the same function on the same field with compatible "
+            "emptiness guards on both sides (checked mechanically against the generated validator and guard tables), or belongs to a reviewed harmless class; no known-crash "
+            "class exists any more (all crash rows found by this check were repaired in /repo: 457aa6b, 4986535, 4008951, 0b2762d, 72c92b8, 9df854d, 7fc2b62, 43069bd). "
+            "(3) load-time validation reaches every one of the 35 blocks of the configuration schema: the block type has a validate method, its parent calls it on that "
+            "field and returns its error, transitively from config.Load; a new site or a new block without validation breaks the theorem. "
+            "Tied by the translator, by differential execution of NewTemplatedRegexp/Expand/MustExpand and of Rule.validate/parseRule/String/Check on patterns x rules with "
+            "regexp/template metacharacters, and by running the real binary on generated configurations over every documented block/option (valid, invalid, templated values; "
+            "every match/ignore condition crossed with rules that reach it; --enabled/--disabled forms): `pint config` verdict vs panic/hang/OOM of lint runs (offline and "
+            "against a fake Prometheus).",
+    "note": "Coq 8.16.1 kernel+VM, no axioms; the harmless classes of the site table (zero value, defaulted, rule data, constant, helper body, CLI flag) are review "
+            "judgements exercised by execution; no open known finding; crash freedom in general is not provable from an executable model and stays testing.",
+    "technique": "Coq protocol theorems with library oracles (single pattern and whole block) + AST-generated site/validator/guard/schema tables with a reviewed disposition table + "
+                 "differential correspondence + load-vs-lint runs of the binary",
 }
